@@ -40,6 +40,14 @@ func RenderJSONSchema(m *Model) string {
 
 func jsType(m *Model, t T) map[string]any {
 	s := jsTypeNoNull(m, t)
+	// an unconstrained nullable scalar is written with a type array, the other
+	// common spelling of nullability
+	if t.Nullable && t.Const == nil && t.Default == nil && t.Min == nil && t.Max == nil && t.MinLen == nil && t.MaxLen == nil {
+		switch t.Kind {
+		case KInt, KString, KBool, KFloat:
+			return map[string]any{"type": []any{s["type"], "null"}}
+		}
+	}
 	if t.Nullable {
 		return map[string]any{"anyOf": []any{s, map[string]any{"type": "null"}}}
 	}
